@@ -45,6 +45,17 @@ func proofsOf(d *Dump) map[common.Address][]byte {
 	return out
 }
 
+// oddProofKeys: proof records filed under something that is not a 20-byte address (nobody's key controls that).
+func oddProofKeys(d *Dump) map[string][]byte {
+	out := map[string][]byte{}
+	for _, kv := range d.Prefix("vauth", vauthtypes.KeyPrefixProofExternalOwnedAccount) {
+		if len(kv.K) != 1+20 {
+			out[string(kv.K[1:])] = kv.V
+		}
+	}
+	return out
+}
+
 // recoverProofSigner: independent secp256k1 recovery over keccak256(the module's fixed message).
 func recoverProofSigner(sigHex string) (common.Address, bool) {
 	if !strings.HasPrefix(sigHex, "0x") {
@@ -130,6 +141,13 @@ func c16AfterBlock(w *World, rec *BlockRecord, txs []*TxInfo) {
 			supplyDelta.Sub(sa, sb)
 		}
 		newProofs := 0
+		oddB, oddA := oddProofKeys(t.Obs.Before), oddProofKeys(t.Obs.After)
+		for k := range oddA {
+			if _, had := oddB[k]; !had {
+				newProofs++
+				r.Violate("C16", "proof_stored_for_non_eoa_address", map[string]string{"address_bytes": fmt.Sprint(len(k))}, "a proof was stored for the %d-byte \"address\" %x: no key controls it, the signature was checked against its last 20 bytes", len(k), k)
+			}
+		}
 		for a, recBz := range pa {
 			old, had := pb[a]
 			if had {
@@ -248,7 +266,7 @@ func genC16(rng *rand.Rand, seed uint64, tier string) *Script {
 			tgt := targets[rng.IntN(len(targets))]
 			switch k := rng.IntN(100); {
 			case k < 35:
-				ops = append(ops, Op{K: "msg", W: w, Mut: "vauth_proof", To: tgt, Note: pick(rng, "", "", "", "", "wrongkey", "wrongmsg", "v27", "short", "long", "flip", "upper", "no0x", "acc_upper", "acc_upper", "acc_mixed"), Via: pick(rng, "", "", "check")})
+				ops = append(ops, Op{K: "msg", W: w, Mut: "vauth_proof", To: tgt, Note: pick(rng, "", "", "", "", "wrongkey", "wrongmsg", "v27", "short", "long", "flip", "upper", "no0x", "acc_upper", "acc_upper", "acc_mixed", "acc_long", "acc_long"), Via: pick(rng, "", "", "check")})
 			case k < 65:
 				ops = append(ops, Op{K: "msg", W: w, Mut: "vest_create", To: tgt, Ref: rng.IntN(9), Note: pick(rng, "continuous", "delayed", "periodic", "permanent")})
 			case k < 80: // nested in exec / granted
